@@ -51,10 +51,12 @@ SInit ==
   /\ out = [p |-> 0, id |-> 0, res |-> "init", fault |-> "none"]
 
 \* what the SQL returns when several rows qualify: the first in (height, state) index order = lowest id
-FirstLAt(h) == LET S == {i \in DOMAIN rows : rows[i].st = "L" /\ rows[i].height = h}
-               IN IF S = {} THEN -1 ELSE Min(S)
+FirstLAtOf(r, h) == LET S == {i \in DOMAIN r : r[i].st = "L" /\ r[i].height = h}
+                    IN IF S = {} THEN -1 ELSE Min(S)
+SqlTipOf(r) == FirstLAtOf(r, Max({r[i].height : i \in LongestOf(r)}))
+FirstLAt(h) == FirstLAtOf(rows, h)
 MaxLHeight  == Max({rows[i].height : i \in LongestOf(rows)})
-SqlTip      == FirstLAt(MaxLHeight)
+SqlTip      == SqlTipOf(rows)
 
 Set(p, f)   == ps' = [ps EXCEPT ![p] = f]
 Done(p, id, res, fault) ==
